@@ -65,11 +65,20 @@ def classes():
       y: pg.typing.Any(default=None)
       z: pg.typing.Any(default=None)
 
-    _CLS['list'] = [C08A, C08B]
+    class C08Inf(pg.symbolic.ValueFromParentChain):
+      """An inferential element: resolves to the attribute `src` of the nearest ancestor (beyond its
+      parent) that has one. A symbolic node without fields of its own."""
+
+      @property
+      def inference_key(self):
+        return 'src'
+
+    _CLS['list'] = [C08A, C08B, C08Inf]
   return _CLS['list']
 
 
-CLASS_ACCW = [False, True]     # default accessor_writable of the two classes
+CLASS_ACCW = [False, True, False]     # default accessor_writable of the classes (C08A, C08B, C08Inf)
+INF = 2                                # class index of the inferential element
 
 
 # ------------------------------------------------------------------------------------------
@@ -124,6 +133,34 @@ def set_deep(t, flag, value):
     n[flag] = value
     if flag == 's' and n['k'] == 'obj':
       n['ci'] = value
+
+
+def flags_of(n):
+  return {k: n[k] for k in ('s', 'w', 'ci') if k in n}
+
+
+def masked(t, path):
+  """The tree with the subtree at `path` cut out."""
+  t = _copy(t)
+  if not path:
+    return None
+  parent = get_at(t, path[:-1])
+  for i, (k, _) in enumerate(children(parent)):
+    if k == path[-1]:
+      if parent['k'] == 'list':
+        parent['items'][i] = '<cut>'
+      else:
+        parent['items'][i][1] = '<cut>'
+  return t
+
+
+def shape_of(t):
+  """Contents without the sealed flags."""
+  if not is_node(t):
+    return t
+  t = {k: v for k, v in t.items() if k not in ('s', 'ci')}
+  t['items'] = [shape_of(c) for c in t['items']] if t['k'] == 'list' else [[k, shape_of(c)] for k, c in t['items']]
+  return t
 
 
 def val_node(kind, items, c=0):
@@ -670,6 +707,11 @@ class C08(Prop):
           'set_accessor_writable) under 0-4 nested as_sealed / allow_writable_accessors '
           'scopes (True/False/None); 400 dependent batches (a pair of a rebind inserts a sealed value, another '
           'pair of the same rebind addresses a key at or below that path, both orders, every receiver kind); '
+          '250 batches on a sealed receiver one of whose descendants was unsealed individually, pairs inside and '
+          'outside the unsealed part in every order; 300 histories of 2-4 calls on one accessor-protected receiver '
+          '(non-accessor mutators, then accessor writes), flags of all nodes compared after every call; 250 trees '
+          'whose lists / dict values / object fields hold inferential elements (a ValueFromParentChain subclass '
+          'that evaluates to a value outside the sealed subtree), sealed / unsealed at any node; '
           'plus an exhaustive grid: every entry point x {node, child, '
           'grandchild} x own flag x 9 scope stacks x accessor flag, and every mutating method found by '
           'introspection of the classes\' MRO. Non-trivial: the step addresses a node that is protected '
@@ -699,6 +741,9 @@ class C08(Prop):
     yield from self.history_cases(rng, 150 if tier == 'quick' else 3000)
     yield from self.mixed_rebind_cases(rng, 60 if tier == 'quick' else 1500)
     yield from self.dependent_batch_cases(rng, 400 if tier == 'quick' else 8000)
+    yield from self.partial_seal_batch_cases(rng, 250 if tier == 'quick' else 5000)
+    yield from self.flag_history_cases(rng, 300 if tier == 'quick' else 6000)
+    yield from self.inferential_cases(rng, 250 if tier == 'quick' else 5000)
     yield from self.grid_cases()
     yield from self.discovered_cases()
     yield from self.shallow_seal_cases()
@@ -844,6 +889,149 @@ class C08(Prop):
                                    'acc_scopes': rng.choice([[], [], [False]]),
                                    'call': {'name': 'rebind', 'pairs': pairs}, 'dependent': True}]}
 
+  def partial_seal_batch_cases(self, rng, n):
+    """A receiver sealed as `seal()` leaves it, one of its descendants unsealed individually
+    afterwards (`child.seal(False)`), and ONE batched rebind on the receiver whose pairs address
+    keys inside the unsealed descendant as well as keys of still sealed nodes (the receiver itself
+    included), in every order. The refusal concerns nodes sealed before the batch: nothing may be
+    written."""
+    g = Gen(rng)
+    made = 0
+    for _ in range(n * 6):
+      if made >= n:
+        break
+      t = g.tree(rng.randint(2, 3), rng.choice(['dict', 'list', 'obj', 'dict', 'list']))
+      nodes = all_nodes(t)
+      rpath, recv = rng.choice([(p, x) for p, x in nodes if len(p) <= 1])
+      inner = [(p, x) for p, x in all_nodes(recv) if p]
+      if not inner:
+        continue
+      upath, u = rng.choice(inner)
+      set_deep(recv, 's', True)
+      set_deep(u, 's', False)
+      def target(p, x):
+        if x['k'] == 'list':
+          return list(p) + [rng.randint(0, len(x['items']))]
+        if x['k'] == 'obj':
+          return list(p) + [rng.choice(FIELDS)]
+        ks = [k for k, _ in x['items']]
+        return list(p) + [rng.choice(ks) if ks and rng.chance(0.5) else rng.choice(DKEYS)]
+      sealed_parents = [(p, x) for p, x in all_nodes(recv) if x['s']]
+      open_parents = [(p, x) for p, x in all_nodes(recv) if not x['s']]
+      pairs, seen = [], []
+      for p, x in [rng.choice(open_parents) for _ in range(rng.randint(1, 2))] + \
+                  [rng.choice(sealed_parents) if rng.chance(0.6) else ([], recv) for _ in range(rng.randint(1, 2))]:
+        loc = target(p, x)
+        if any(loc[:len(q)] == q or q[:len(loc)] == loc for q in seen):
+          continue
+        seen.append(loc)
+        pairs.append([loc, g.atom()])
+      if len(pairs) < 2:
+        continue
+      if rng.chance(0.5):
+        rng.shuffle(pairs)
+      made += 1
+      yield {'tree': t, 'steps': [{'kind': 'call', 'recv': rpath,
+                                   'sealed_scopes': rng.choice([[], [], [], [None], [False], [None, None]]),
+                                   'acc_scopes': rng.choice([[], [], [False]]),
+                                   'call': {'name': 'rebind', 'pairs': pairs}, 'partial_seal': True}]}
+
+  def flag_history_cases(self, rng, n):
+    """Histories of 2-4 calls on ONE receiver that is accessor-protected (or whose flags are mixed):
+    mutators that are not accessor writes (clear, update, pop, popitem, rebind, append, extend, insert,
+    sort, reverse, remove, +=, *=) first, then accessor writes / deletions. The flags of every node are
+    part of the compared state after every call, and no call may change them."""
+    g = Gen(rng)
+    non_acc = {'list': ['l_clear', 'l_append', 'l_extend', 'l_insert', 'l_pop', 'l_remove', 'l_reverse', 'l_iadd',
+                        'l_imul', 'rebind'],
+               'dict': ['d_clear', 'd_update', 'd_ior', 'd_pop', 'd_popitem', 'rebind', 'd_clear', 'd_clear'],
+               'obj': ['rebind']}
+    acc = {'list': ['l_setitem', 'l_delitem', 'l_setslice', 'l_delslice'],
+           'dict': ['d_setitem', 'd_delitem', 'd_setattr', 'd_delattr', 'd_setdefault'],
+           'obj': ['o_setattr']}
+    for _ in range(n):
+      t = g.tree(rng.randint(1, 2), rng.choice(['dict', 'dict', 'list', 'obj']))
+      nodes = all_nodes(t)
+      path, node = rng.choice(nodes)
+      mode = rng.below(4)
+      if mode < 3:
+        node['w'] = False
+      else:
+        g.flags(t)
+      steps = []
+      names = [rng.choice(non_acc[node['k']]) for _ in range(rng.randint(1, 2))] + \
+              [rng.choice(acc[node['k']]) for _ in range(rng.randint(1, 2))]
+      for name in names:
+        call = None
+        if name == 'rebind':
+          # direct keys of the receiver only: earlier calls of the history may have replaced its children
+          if node['k'] == 'list':
+            ks = [rng.randint(0, len(node['items']))]
+          elif node['k'] == 'obj':
+            ks = rng.sample(FIELDS, rng.randint(1, 2))
+          else:
+            ks = rng.sample(DKEYS, rng.randint(1, 2))
+          call = {'name': 'rebind', 'pairs': [[[k], g.atom()] for k in ks]}
+        for _ in range(30):
+          if call is not None:
+            break
+          c = g.call(node, nodes)
+          if c['name'] == name:
+            call = c
+        if call is None:
+          continue
+        steps.append({'kind': 'call', 'recv': path, 'sealed_scopes': rng.choice([[], [], [None], [False]]),
+                      'acc_scopes': rng.choice([[], [], [], [None], [None, None]]), 'call': call})
+      if len(steps) >= 2:
+        yield {'tree': t, 'steps': steps, 'flag_history': True}
+
+  def inferential_cases(self, rng, n):
+    """Trees in which lists, dict values and object fields hold INFERENTIAL elements (a
+    `pg.symbolic.ValueFromParentChain` subclass: a symbolic node of its own that *evaluates* to the
+    value under the root key `src`, outside the subtree that is sealed): seal / unseal of a subtree
+    holding them, then calls on the elements and on what they resolve to."""
+    g = Gen(rng)
+    inf = lambda: val_node('obj', [], INF)
+    for _ in range(n):
+      src = g.tree(rng.randint(0, 1), rng.choice(['dict', 'list', 'obj']))
+      kind = rng.choice(['list', 'list', 'dict', 'obj'])
+      def holder(kind, depth):
+        def child():
+          k = rng.below(10)
+          if k < 4:
+            return inf()
+          if k < 6 and depth > 0:
+            return holder(rng.choice(['list', 'dict', 'obj']), depth - 1)
+          return g.atom()
+        if kind == 'list':
+          return val_node('list', [child() for _ in range(rng.randint(1, 4))])
+        if kind == 'dict':
+          return val_node('dict', [[k, child()] for k in DKEYS if rng.chance(0.6)] or [['a', inf()]])
+        return val_node('obj', [[k, child()] for k in FIELDS], rng.below(2))
+      h = holder(kind, 1)
+      t = val_node('dict', [['src', src], ['h', h], ['c', g.atom()]])
+      if rng.chance(0.3):
+        g.flags(t)
+      hn = all_nodes(h)
+      spath, _ = rng.choice(hn)
+      steps = [{'kind': 'seal', 'recv': ['h'] + spath, 'b': True}]
+      infs = [p for p, x in hn if x.get('c') == INF]
+      probes = []
+      if infs and rng.chance(0.7):
+        ip = rng.choice(infs)
+        probes.append({'kind': 'call', 'recv': ['h'] + ip, 'sealed_scopes': [], 'acc_scopes': [True],
+                       'call': {'name': 'rebind', 'pairs': [[['x'], 1]]}})
+      srcn = all_nodes(src)
+      if srcn and rng.chance(0.7):
+        sp, sn = rng.choice(srcn)
+        probes.append({'kind': 'call', 'recv': ['src'] + sp, 'sealed_scopes': [], 'acc_scopes': [True],
+                       'call': g.call(sn, srcn)})
+      steps += probes[:1]       # a call may change the structure: at most one before the next seal
+      if rng.chance(0.6):
+        steps.append({'kind': 'seal', 'recv': ['h'] + rng.choice(hn)[0], 'b': False})
+        steps += probes[1:2]
+      yield {'tree': t, 'steps': steps, 'inferential': True}
+
   def grid_cases(self):
     stacks = [[], [True], [False], [None], [True, None], [None, True], [False, True], [True, False], [None, None, False]]
     for leafk, tmpl, path in grid_templates():
@@ -984,6 +1172,27 @@ class C08(Prop):
           return {'signature': 'seal-not-deep' if step['b'] else 'unseal-not-deep',
                   'what': 'after seal(%s) at %s not every symbolic descendant has is_sealed == %s: %s' % (
                       step['b'], step['recv'], step['b'], after)}
+      if is_node(recv):
+        # seal / sym_seal / set_accessor_writable concern the subtree of the receiver only: every node
+        # outside it (e.g. the value an inferential element resolves to) keeps its flags and contents.
+        a, b = masked(pre, step['recv']), masked(o['tree'], step['recv'])
+        if a != b:
+          return {'signature': step['kind'] + '-outside-subtree',
+                  'what': '%s(%s) at %s changed something outside the subtree of the receiver: %s -> %s' % (
+                      step['kind'], step['b'], step['recv'], a, b)}
+        if step['kind'] != 'seal':
+          want = _copy(recv)
+          if step['kind'] == 'sym_seal':
+            want['s'] = step['b']
+          else:
+            want['w'] = step['b']
+          if get_at(o['tree'], step['recv']) != want:
+            return {'signature': step['kind'] + '-not-shallow',
+                    'what': '%s(%s) at %s: %s -> %s' % (step['kind'], step['b'], step['recv'], recv,
+                                                        get_at(o['tree'], step['recv']))}
+        elif shape_of(get_at(o['tree'], step['recv'])) != shape_of(recv):
+          return {'signature': 'seal-changed-contents', 'what': 'seal changed more than sealed flags: %s -> %s' % (
+              recv, get_at(o['tree'], step['recv']))}
       return None
     if not is_node(recv):
       return None
@@ -1019,6 +1228,14 @@ class C08(Prop):
     weak_dyn = [t for t in dyn if eff_s is True or (eff_s is None and (t['s'] or t.get('ci')))]
     acc_prot = eff_a is False or (eff_a is None and not recv['w'])
     changed = o['tree'] != pre or not o['json_same']
+    # R0: a call is not seal() / set_accessor_writable(): the protection flags of the receiver and of its
+    # ancestors (the nodes a call cannot replace) are afterwards what they were.
+    for i in range(len(step['recv']) + 1):
+      a, b = get_at(pre, step['recv'][:i]), get_at(o['tree'], step['recv'][:i])
+      if is_node(a) and is_node(b) and flags_of(a) != flags_of(b):
+        return {'signature': 'flags-changed:' + name,
+                'what': '%s at %s changed the protection flags of the node at %s: %s -> %s' % (
+                    name, step['recv'], step['recv'][:i], flags_of(a), flags_of(b))}
     # R1: sealed (by flag, deeply, or by scope) => nothing changes; WPE if it would have changed.
     if strong:
       if changed:
@@ -1096,6 +1313,10 @@ class C08(Prop):
 
   def describe(self, case, out):
     h = ['steps:%d' % len(case['steps'])]
+    if case.get('flag_history'):
+      h.append('flag-history')
+    if case.get('inferential'):
+      h.append('inferential-elements')
     for s, o in zip(case['steps'], out['steps']):
       if s['kind'] in ('call', 'generic'):
         name = s['call']['name'] if s['kind'] == 'call' else 'generic'
@@ -1110,6 +1331,8 @@ class C08(Prop):
           h.append('recv:%s sealed=%s accW=%s' % (r['k'], r['s'], r['w']))
         if s.get('dependent'):
           h.append('dependent-batch')
+        if s.get('partial_seal'):
+          h.append('partial-seal-batch')
         if any(deep_flag(i['v'], 's', True) for i in o.get('ins', [])):
           h.append('sealed-value-handed-in')
           if any(o.get('unsealed', {}).get('ins_changed', [])):
